@@ -17,6 +17,7 @@ From NextestModel Require Model.DisplaySetting Proofs.DisplaySetting.
 From NextestModel Require Model.Filter Model.FutureQueue Model.Unit Model.Run Model.CliRun Model.ExecuteStream Proofs.ExecuteStream.
 From NextestModel Require Model.NameFilter Model.FilterFull Proofs.FilterGlue.
 From NextestModel Require Model.Scripts Model.EnvFileLine Proofs.EnvFileLine.
+From NextestModel Require Model.DisplaySections Proofs.DisplaySections.
 Import ListNotations.
 Open Scope N_scope.
 
@@ -28,6 +29,8 @@ Module PFG := NextestModel.Proofs.FilterGlue.
 Module MSc := NextestModel.Model.Scripts.
 Module MEL := NextestModel.Model.EnvFileLine.
 Module PEL := NextestModel.Proofs.EnvFileLine.
+Module MSe := NextestModel.Model.DisplaySections.
+Module PSe := NextestModel.Proofs.DisplaySections.
 Module MJ := NextestModel.Model.Junit.
 Module MFl := NextestModel.Model.Filter.
 Module MD := NextestModel.Model.Dispatcher.
@@ -714,3 +717,24 @@ Proof.
   pose proof (gen_env_file_line_is_model line) as H.
   destruct (G.env_file_line line) as [[k v]|[]]; cbn in H; inversion H; reflexivity.
 Qed.
+
+(* ---------------------------------------------------------------- the sections of a unit's output (Model/DisplaySections.v, C16) *)
+(* == block display_sections == *)
+(* UnitOutputReporter::write_child_output: the streams handed to write_test_single_output_with_description and the
+   headers written by writeln!, in order, each under the condition it is written, regenerated from the source, are the
+   streams / the headers of the model's sections: for split capture standard output then standard error, each shown when
+   it was captured and is non-empty or empty streams are displayed -- on its own account; one section for combined
+   capture. For every reporter, every pair of streams (a stream is its buffer and whether it is empty) and headers. *)
+Definition model_sections (u : G.UnitOutputReporter) (o : G.ChildOutput) (ho he hc : N) : list (G.ChildSingleOutput * N) :=
+  match o with
+  | G.ChildOutput_Split sp =>
+      MSe.split_sections _ _ G.ChildSingleOutput_is_empty (G.UnitOutputReporter_display_empty_outputs u)
+        (G.ChildSplitOutput_stdout sp) (G.ChildSplitOutput_stderr sp) ho he
+  | G.ChildOutput_Combined c =>
+      MSe.combined_sections _ _ G.ChildSingleOutput_is_empty (G.UnitOutputReporter_display_empty_outputs u) c hc
+  end.
+Lemma gen_display_sections_is_model :
+  forall u o ho he hc,
+    G.display_sections u o = map fst (model_sections u o ho he hc) /\
+    G.display_section_headers u o ho he hc = map snd (model_sections u o ho he hc).
+Proof. intros [fs ff de] [[so se]|c] ho he hc; split; bridge. Qed.
